@@ -1,6 +1,7 @@
 """rwsim engine: run / replay / shrink for the rewrite world simulator."""
 
 import collections
+import contextlib
 import copy
 import json
 
@@ -104,9 +105,7 @@ def _c11_play(scenario, sigma, params, streams, perm_seed):
                 nperm += 1
             sdesc = dict(sdesc)
             sdesc["reg_order"] = order
-        sess = driver.run_session(world, model, sdesc, "C11", si, gen_cb=gen_cb, check_shape=shape)
-        if si >= len(scenario["sessions"]):
-            scenario["sessions"].append(sess.desc)
+        sess = driver.run_session(world, model, sdesc, "C11", si, gen_cb=gen_cb, sink=scenario["sessions"], check_shape=shape)
         if sess.error is not None:
             return ("abort", type(sess.error).__name__, str(sess.error)[:200]), nperm, False
         driver.apply_to_model(sess)
@@ -278,6 +277,36 @@ def _alignment_state(world):
     return out
 
 
+def _paddable_new_block(world, model, mt, sess, block_uuid):
+    """Does the aligned block a patch added start one of the temporary
+    per-block intervals (other than the first of its partition)?  Only there
+    can join_byte_intervals pad in front of it; an aligned block in the
+    middle of the block it was spliced into is the documented limitation
+    pinned by tests/test_rewriting.py::test_align (finding F40)."""
+    import re
+
+    b = next((x for x in world.module.byte_blocks if x.uuid == block_uuid), None)
+    if b is None or b.address is None:
+        return False
+    addr = mt.tok_addr()
+    for _, u in model.units():
+        for t in u.toks:
+            if not t.is_bytes() or addr.get(t.id) != b.address:
+                continue
+            mo = re.fullmatch(r"s(\d+)o(\d+)i(\d+)\.0", str(t.id))
+            if not mo or int(mo.group(1)) != sess.index:
+                continue
+            oi, inv = int(mo.group(2)), int(mo.group(3))
+            caps = [c for c in sess.captures if c["op"] == oi and c["inv"] == inv]
+            if len(caps) != 1:
+                continue
+            c = caps[0]
+            same_place = [x for x in sess.captures if x["block"] == c["block"] and x["offset"] == c["offset"]]
+            if c["offset"] == 0 and c["block"] not in sess.pre_first and len(same_place) == 1 and sess.desc["ops"][oi]["k"] == "ins":
+                return True
+    return False
+
+
 def gtirb_mod():
     import gtirb
 
@@ -326,9 +355,7 @@ def execute_c10(scenario, params, streams=None):
                     return gen.gen_session(hist, m, params, si)
 
             pre_align = _alignment_state(world)
-            sess = driver.run_session(world, model, sdesc, "C10", si, gen_cb=gen_cb, check_shape=shape)
-            if sdesc is None:
-                scenario["sessions"].append(sess.desc)
+            sess = driver.run_session(world, model, sdesc, "C10", si, gen_cb=gen_cb, sink=scenario["sessions"], check_shape=shape)
             stats["sessions"] += 1
             stats["ops"] += len(sess.desc["ops"])
             if sess.error is not None:
@@ -345,12 +372,10 @@ def execute_c10(scenario, params, streams=None):
                     continue
                 was = pre_align.get(bu)
                 if was is None or was[1]:
-                    raise core.Violation(
-                        "C10",
-                        "alignment-lost",
-                        {"alignment": a, "new_block": was is None, "zero_sized": size == 0, "session": si},
-                        {"new_block": was is None, "zero_sized": size == 0, "layout_reordered": bool(obs.reordered)},
-                    )
+                    sig = {"new_block": was is None, "zero_sized": size == 0, "layout_reordered": bool(obs.reordered)}
+                    if was is None:
+                        sig["paddable"] = _paddable_new_block(world, model, mt, sess, bu)
+                    raise core.Violation("C10", "alignment-lost", {"alignment": a, "new_block": was is None, "zero_sized": size == 0, "session": si}, sig)
             stats["aligned_blocks"] += sum(1 for v in post.values() if v[0] > 1)
             stats["pads"] += sum(len(p) for p in mt.pads.values())
             if obs.pad_notes:
@@ -373,6 +398,85 @@ def execute_c10(scenario, params, streams=None):
     return verdict
 
 
+def _block_facts(world):
+    """uuid -> (address, bytes, size, {absolute address: expression repr})
+    for every block, plus the overlap groups of every interval (reference
+    grouping: blocks chained by a positive-length overlap, in offset order)"""
+    facts = {}
+    groups = {}
+    for bi in world.module.byte_intervals:
+        data = bytes(bi.contents)
+        se = {bi.address + off: _expr_repr(e) for off, e in bi.symbolic_expressions.items()} if bi.address is not None else {}
+        for b in bi.blocks:
+            lo, hi = b.offset, b.offset + b.size
+            facts[b.uuid] = (
+                b.address,
+                data[lo : min(hi, bi.initialized_size)].hex(),
+                b.size,
+                {a: r for a, r in se.items() if b.address is not None and b.address <= a < b.address + b.size},
+            )
+        end = None
+        gid = None
+        for b in sorted(bi.blocks, key=lambda b: (b.offset, b.size)):
+            if end is None or end <= b.offset:
+                gid = b.uuid
+                end = b.offset + b.size
+            else:
+                end = max(end, b.offset + b.size)
+            groups[b.uuid] = gid
+    return facts, groups
+
+
+def _expr_repr(e):
+    syms = [s.name for s in e.symbols]
+    return f"{type(e).__name__}:{syms}:{getattr(e, 'offset', None)}:{sorted(a.name for a in e.attributes)}"
+
+
+@contextlib.contextmanager
+def _watch_split_state(world, stats):
+    """Observe the state between the split and the re-join of the byte
+    intervals (the engine step prepare_for_rewriting): every group of
+    overlapping blocks sits in its own interval and every block keeps its
+    bytes, its address and the symbolic expressions inside it."""
+    import gtirb_rewriting.rewriting as rw_mod
+
+    orig = rw_mod.prepare_for_rewriting
+    pre, groups = _block_facts(world)
+
+    @contextlib.contextmanager
+    def watched(module, nop):
+        with orig(module, nop):
+            stats["probe.split_state_observed"] += 1
+            now, _ = _block_facts(world)
+            for u, f in sorted(pre.items(), key=lambda kv: str(kv[0])):
+                g = now.get(u)
+                if g is None:
+                    raise core.Violation("C10", "split-state", {"what": "block left the module during the split"}, {"kind": "lost-block", "exotic": True})
+                for name, a, b in (("address", f[0], g[0]), ("bytes", f[1], g[1]), ("size", f[2], g[2]), ("symexprs", f[3], g[3])):
+                    if a != b:
+                        raise core.Violation("C10", "split-state", {"what": f"a block's {name} changed between split and join", "before": str(a)[:120], "during": str(b)[:120]}, {"kind": name, "exotic": True})
+            for bi in world.module.byte_intervals:
+                for b in bi.blocks:
+                    if b.offset < 0 or b.offset + b.size > bi.size:
+                        raise core.Violation("C10", "split-state", {"what": "block outside its interval between split and join", "block": [b.offset, b.size], "interval_size": bi.size}, {"kind": "outside", "exotic": True})
+                gs = {groups.get(b.uuid) for b in bi.blocks if b.uuid in groups}
+                if len(gs) > 1:
+                    raise core.Violation("C10", "split-state", {"what": "blocks that do not overlap share an interval after the split", "groups": len(gs)}, {"kind": "not-split", "exotic": True})
+            seen = {}
+            for bi in world.module.byte_intervals:
+                for b in bi.blocks:
+                    g = groups.get(b.uuid)
+                    if g is not None and seen.setdefault(g, bi) is not bi:
+                        raise core.Violation("C10", "split-state", {"what": "overlapping blocks were put in different intervals"}, {"kind": "group-torn", "exotic": True})
+            yield
+
+    rw_mod.prepare_for_rewriting = watched
+    try:
+        yield
+    finally:
+        rw_mod.prepare_for_rewriting = orig
+
+
 def _exotic_check(world, stats):
     """Empty apply() on intervals with gaps, uninitialized tails, zero-sized
     and overlapping blocks: every block keeps bytes, address and attached
@@ -389,7 +493,10 @@ def _exotic_check(world, stats):
 
     before = snap()
     try:
-        _empty_apply(world)
+        with _watch_split_state(world, stats):
+            _empty_apply(world)
+    except core.Violation:
+        raise
     except Exception as e:
         raise core.Violation("C10", "empty-apply-diff", {"what": "apply() without modifications raised", "error": f"{type(e).__name__}: {e}"[:300]}, {"part": "raised:" + type(e).__name__, "exotic": True})
     after = snap()
@@ -511,9 +618,7 @@ def execute_c09(scenario, params, streams=None):
                     oracles.align_model(world, model, obs, "C09")
                     reordered = reordered or obs.reordered
             else:
-                sess = driver.run_session(world, model, sdesc, "C09", si, gen_cb=gen_cb, check_shape=shape)
-                if sdesc is None:
-                    scenario["sessions"].append(sess.desc)
+                sess = driver.run_session(world, model, sdesc, "C09", si, gen_cb=gen_cb, sink=scenario["sessions"], check_shape=shape)
                 steps.extend(sess.steps)
                 stats["ops"] += len(sess.desc["ops"]) if not sequential else 0
                 if sess.error is not None:
@@ -602,10 +707,8 @@ def execute_c05(scenario, params, streams=None):
                 sdesc = dict(sdesc)
                 sdesc["faults"] = plan
             sess = driver.run_session(
-                world, model, sdesc, "C05", si, gen_cb=gen_cb, check_shape=lambda m, sd: gen.shape_ok(m, sd, params) and gen.ops_allowed(m, sd)
+                world, model, sdesc, "C05", si, gen_cb=gen_cb, sink=scenario["sessions"], check_shape=lambda m, sd: gen.shape_ok(m, sd, params) and gen.ops_allowed(m, sd)
             )
-            if si >= len(scenario["sessions"]):
-                scenario["sessions"].append(sess.desc)
             out.append(sess)
             for k, v in sess.fired.items():
                 stats["fault." + k] += v
@@ -732,14 +835,12 @@ def execute_generic(prop, scenario, params, streams=None):
             pre18 = oracles.c18_pre(world) if prop == "C18" else None
             pre19 = oracles.c19_pre(world) if prop == "C19" else None
             sess = driver.run_session(
-                world, model, sdesc, prop, si, gen_cb=gen_cb, check_shape=lambda m, sd: gen.shape_ok(m, sd, params) and gen.ops_allowed(m, sd)
+                world, model, sdesc, prop, si, gen_cb=gen_cb, sink=scenario["sessions"], check_shape=lambda m, sd: gen.shape_ok(m, sd, params) and gen.ops_allowed(m, sd)
             )
             sess.c08_pre = pre08
             sess.c18_pre = pre18
             if getattr(sess, "c19_pre", None) is None:
                 sess.c19_pre = pre19
-            if sdesc is None:
-                scenario["sessions"].append(sess.desc)
             stats["sessions"] += 1
             stats["ops"] += len(sess.desc["ops"])
             for op in sess.desc["ops"]:
